@@ -2,7 +2,9 @@ package fsutil
 
 import (
 	"encoding/json"
+	"errors"
 	"os"
+	"syscall"
 )
 
 // FileStatus enumerates the states of a file on the filesystem.
@@ -75,7 +77,10 @@ func IsRegularFile(path string) (bool, error) {
 func FileStatusFromPath(path string) (FileStatus, error) {
 	fileInfo, err := os.Lstat(path)
 	if err != nil {
-		if os.IsNotExist(err) {
+		// ENOTDIR: a parent of path is not a directory (e.g. the directory
+		// that held the file was replaced by a regular file), so there is
+		// nothing at path.
+		if os.IsNotExist(err) || errors.Is(err, syscall.ENOTDIR) {
 			return StatusAbsent, nil
 		}
 		return 0, err
